@@ -233,7 +233,7 @@ func (r *vfRelayRig) episode(kind string, rnd *vfRand) bool {
 	spre := r.stoks(1+rnd.Intn(4), "must", false, &st)
 	vfWriteSplit(r.serverOut, spre, pol(), rnd)
 	if !vfWaitSink(r.toServer, c0, pre[len(pre)-10:], 10*time.Second) || !vfWaitSink(r.toClient, s0, spre[len(spre)-10:], 10*time.Second) {
-		c.Viol("c13-standby-lost", "standby tokens did not pass the relay within 10 s")
+		c.Slow("c13-standby-lost", "standby tokens did not pass the relay within 10 s")
 		return false
 	}
 	if st := r.relay.relayStatus.Load(); st != kRelayStandBy {
@@ -260,7 +260,7 @@ func (r *vfRelayRig) episode(kind string, rnd *vfRand) bool {
 	}
 	late := r.stoks(rnd.Intn(3), lateClass, true, &st)
 	if !vfWaitSink(r.toClient, s0, []byte("#R"), 10*time.Second) {
-		c.Viol("c13-trigger-not-forwarded", "the trigger did not reach the client side within 10 s")
+		c.Slow("c13-trigger-not-forwarded", "the trigger did not reach the client side within 10 s")
 		return false
 	}
 	if len(late) > 0 {
@@ -284,7 +284,7 @@ func (r *vfRelayRig) episode(kind string, rnd *vfRand) bool {
 		wantS = append(wantS, "#FAIL:")
 	}
 	if !vfWaitSink(r.toServer, c0, []byte(wantC[0]), 10*time.Second) {
-		c.Viol("c13-act-not-forwarded", "%s: no %s line reached the server side within 10 s", kind, wantC[0])
+		c.Slow("c13-act-not-forwarded", "%s: no %s line reached the server side within 10 s", kind, wantC[0])
 		return false
 	}
 	// (d) client tokens while the relay waits for the CFG line; the server's CFG bundle
@@ -314,7 +314,7 @@ func (r *vfRelayRig) episode(kind string, rnd *vfRand) bool {
 			wantC = append(wantC, "#FAIL:")
 		}
 		if !vfWaitSink(r.toClient, s0, []byte(wantS[len(wantS)-1]), 10*time.Second) {
-			c.Viol("c13-cfg-not-forwarded", "%s: no %s line reached the client side within 10 s", kind, wantS[len(wantS)-1])
+			c.Slow("c13-cfg-not-forwarded", "%s: no %s line reached the client side within 10 s", kind, wantS[len(wantS)-1])
 			return false
 		}
 	} else {
@@ -327,14 +327,14 @@ func (r *vfRelayRig) episode(kind string, rnd *vfRand) bool {
 	vfWriteSplit(r.serverOut, stail, pol(), rnd)
 	if !vfWaitSink(r.toServer, c0, tail[len(tail)-10:], 10*time.Second) || !vfWaitSink(r.toClient, s0, stail[len(stail)-10:], 10*time.Second) {
 		gotC, gotS := r.toServer.Bytes()[c0:], r.toClient.Bytes()[s0:]
-		c.Viol("c13-lost:tail", "%s: the last tokens did not come out within 10 s (status %d); to-server tail %q; to-client tail %q", kind, r.relay.relayStatus.Load(), vfHead(gotC[vfMax(0, len(gotC)-60):], 60), vfHead(gotS[vfMax(0, len(gotS)-60):], 60))
+		c.Slow("c13-lost:tail", "%s: the last tokens did not come out within 10 s (status %d); to-server tail %q; to-client tail %q", kind, r.relay.relayStatus.Load(), vfHead(gotC[vfMax(0, len(gotC)-60):], 60), vfHead(gotS[vfMax(0, len(gotS)-60):], 60))
 		return false
 	}
 	if kind == "confirm" {
 		r.clientIn.WriteAtomic([]byte("#EXIT:" + encodeString("Saved 1 file") + "\n"))
 		wantC = append(wantC, "#EXIT:")
 		if !vfWaitSink(r.toServer, c0, []byte("#EXIT:"), 10*time.Second) {
-			c.Viol("c13-exit-not-forwarded", "the EXIT line did not pass")
+			c.Slow("c13-exit-not-forwarded", "the EXIT line did not pass")
 			return false
 		}
 	}
@@ -436,13 +436,13 @@ func (r *vfRelayRig) tunnelEpisode(rnd *vfRand) bool {
 	r.clientIn.WriteAtomic(pre)
 	r.serverOut.WriteAtomic(spre)
 	if !vfWaitSink(r.toServer, c0, pre[len(pre)-10:], 10*time.Second) || !vfWaitSink(r.toClient, s0, spre[len(spre)-10:], 10*time.Second) {
-		c.Viol("c13-standby-lost", "standby tokens did not pass before the tunnel episode")
+		c.Slow("c13-standby-lost", "standby tokens did not pass before the tunnel episode")
 		return false
 	}
 	t0 := r.toClient.Len()
 	r.serverOut.WriteAtomic([]byte(fmt.Sprintf("::TRZSZ:TRANSFER:R:1.1.5:%s:%d\r\n", id, port)))
 	if !vfWaitSink(r.toClient, t0, []byte("#R"), 10*time.Second) {
-		c.Viol("c13-trigger-not-forwarded", "tunnel episode: the trigger did not reach the client side")
+		c.Slow("c13-trigger-not-forwarded", "tunnel episode: the trigger did not reach the client side")
 		return false
 	}
 	m := vfTrigPortRe.FindSubmatch(r.toClient.Bytes()[t0:])
@@ -476,7 +476,7 @@ func (r *vfRelayRig) tunnelEpisode(rnd *vfRand) bool {
 	select {
 	case sconn = <-srvConnCh:
 	case <-time.After(5 * time.Second):
-		c.Viol("c13-tunnel-server-side", "the relay never connected to the server's tunnel port")
+		c.Slow("c13-tunnel-server-side", "the relay never connected to the server's tunnel port")
 		return false
 	}
 	defer sconn.Close()
@@ -491,7 +491,7 @@ func (r *vfRelayRig) tunnelEpisode(rnd *vfRand) bool {
 	bundle = append(bundle, r.ctoks(1+rnd.Intn(4), "must", true, &ct)...)
 	vfConnWriteSplit(cconn, bundle, pol(), rnd)
 	if !vfWaitSink(fromClient, 0, []byte("#ACT:"), 10*time.Second) {
-		c.Viol("c13-act-not-forwarded", "tunnel episode: no ACT reached the server through the tunnel")
+		c.Slow("c13-act-not-forwarded", "tunnel episode: no ACT reached the server through the tunnel")
 		return false
 	}
 	post := r.ctoks(1+rnd.Intn(4), "must", true, &ct)
@@ -509,7 +509,7 @@ func (r *vfRelayRig) tunnelEpisode(rnd *vfRand) bool {
 	vfConnWriteSplit(sconn, sb, pol(), rnd)
 	<-done
 	if !vfWaitSink(fromServer, 0, []byte("#CFG:"), 10*time.Second) {
-		c.Viol("c13-cfg-not-forwarded", "tunnel episode: no CFG reached the client through the tunnel")
+		c.Slow("c13-cfg-not-forwarded", "tunnel episode: no CFG reached the client through the tunnel")
 		return false
 	}
 	tail := r.ctoks(1+rnd.Intn(3), "must", true, &ct)
@@ -517,12 +517,12 @@ func (r *vfRelayRig) tunnelEpisode(rnd *vfRand) bool {
 	vfConnWriteSplit(cconn, tail, pol(), rnd)
 	vfConnWriteSplit(sconn, stail, pol(), rnd)
 	if !vfWaitSink(fromClient, 0, tail[len(tail)-10:], 10*time.Second) || !vfWaitSink(fromServer, 0, stail[len(stail)-10:], 10*time.Second) {
-		c.Viol("c13-lost:tunnel-tail", "tunnel episode: the last tokens did not come out (status %d)", r.relay.relayStatus.Load())
+		c.Slow("c13-lost:tunnel-tail", "tunnel episode: the last tokens did not come out (status %d)", r.relay.relayStatus.Load())
 		return false
 	}
 	cconn.Write([]byte("#EXIT:" + encodeString("Saved 1 file") + "\n"))
 	if !vfWaitSink(fromClient, 0, []byte("#EXIT:"), 10*time.Second) {
-		c.Viol("c13-exit-not-forwarded", "tunnel episode: the EXIT line did not pass")
+		c.Slow("c13-exit-not-forwarded", "tunnel episode: the EXIT line did not pass")
 		return false
 	}
 	deadline := time.Now().Add(5 * time.Second)
